@@ -92,6 +92,16 @@ let run toks =
     let (rc, cls) = sc_error_class code in
     prc rc ^ " " ^ (match cls with Some c -> if iz c = iz code then "same" else "OTHER" | None -> "UNSET")
   | "errstring" -> "0 text"
+  | "errtext" ->
+    let code = List.nth known_codes (i 2) in
+    let ((rc, txt), n) = sc_error_string code in
+    prc rc ^ " " ^ (match n with Some v -> string_of_int (iz v) | None -> "UNSET") ^ " " ^ (match txt with Some l -> dump l | None -> ".")
+  | "errclassx" ->
+    let (rc, cls) = sc_error_class (zi (i 1)) in
+    prc rc ^ " " ^ (match cls with Some c -> if iz c = iz h_MPI_ERR_UNKNOWN then "-1" else string_of_int (iz c) | None -> "UNSET")
+  | "errtextx" ->
+    let ((rc, txt), n) = sc_error_string (zi (i 1)) in
+    prc rc ^ " " ^ (match n with Some v -> string_of_int (iz v) | None -> "UNSET") ^ " " ^ (match txt with Some l -> dump l | None -> ".")
   | _ -> "UNKNOWN_CASE"
 
 let () =
